@@ -66,6 +66,11 @@ CLAIMS = {
         text="Machine-checked for every generated instruction-emitting method (minus recorded findings): opcode has a grammar entry; result type/id exactly when the entry has one; operand slots equal the entry's operands kind by kind, quantifier by quantifier, in grammar order and fed by the parameters in signature order (a swap of two equal-kinded arguments fails); parameters of parameterised kinds only via a single trailing additional_params; the sink (section / block / block end) is where the loader files that opcode; the Builder ends a block for exactly the terminator opcodes. End-to-end equality of a built module with its assemble-then-load image is C06_partial: decided by the differential (every method once in a minimal complete history + seeded complete histories) on top of C05/C12/C13/C15.",
         note="Trusted: Lean kernel + standard axioms; translator builder.py (every token of 1128 methods, validated by calling each method in the harness and comparing with the model's prediction); hand models; ArgsConform/complete-history hypotheses as stated in the evidence; known findings: type_struct_continued_intel(_id), begin_block_no_label.",
         ref="DESIGN.md §8 C06"),
+    "C01": dict(
+        technique="Lean 4 theorems by induction over loader histories: every accepted instruction is appended to exactly the part (section or function part) the loader destines it to, hence the loaded module is the stable partition of the input; permutation / sub-sequence / identity-on-sorted-input corollaries by generic list lemmas; assembly = header words ++ per-instruction encodings (C15); load_bytes = that loader fed by the parser's delivered instructions (C14 trace theorem); differential loadasm channel judged by an independent encoder and stable-partition oracle",
+        text="Machine-checked for every table set and instruction sequence the loader accepts (with at most one OpMemoryModel and no OpFunctionParameter after its function's first label): each of the 11 sections and the function part of the loaded module is exactly the sub-sequence of the input destined to it, so the assembled instruction sequence is a permutation of the input (nothing dropped, duplicated, invented), every part keeps the input's relative order, an input in layout order comes back identical, and the assembled words are [magic, input version, generator, input bound, 0] followed by the per-instruction encodings. Instruction-level word equality (each parsed instruction re-encodes to the words it came from, up to string padding) and the reload equality are decided by the differential, not a theorem: C01_partial at that layer.",
+        note="Trusted: Lean kernel + standard axioms; hand models Loader/LoadBytes/Assemble tied by the loadasm channel (layout-ordered, section-permuted, duplicated-instruction and garbage-padded modules over all core opcodes; outputs loaded again); known finding: a late OpFunctionParameter is moved in front of the blocks.",
+        ref="DESIGN.md §8 C01"),
     "C04": dict(
         technique="Lean 4 theorem: no panic site of the parser/decoder/tracker model is reachable, for every byte string and consumer, by induction over the parse with an abstract interpretation of parse_operands over each grammar entry (proved sound, evaluated by the kernel on the regenerated tables); loader composition via the C14 trace-shape theorem; differential on a systematic malformed stream",
         text="Machine-checked: every assert!/expect/index/panic!()/overflow of binary/parser.rs, decoder.rs, tracker.rs and the generated parse_operand is an explicit panic outcome of the model, and for the tables regenerated from the working tree, every byte string below 2^63 bytes and every consumer behaviour, Parser::parse returns Ok or an error value (theorem C04); load_bytes never panics (C04_loader); every decoder request on any buffer with any limit is panic-free (C11). That accepted modules assemble and disassemble without panic is decided by the differential (assembler/disassembler models are total functions), on every accepted module of the stream.",
